@@ -271,10 +271,11 @@ CONFIGS = {
     "C06": {"quick": [("flush", dict(nstmt=1, nflush=1, sizes=[96], exit=False))],
             "thorough": [("flush-exit", dict(nstmt=1, nflush=1, sizes=[200], exit=True, soft=2)),
                          ("flush-grace", dict(nstmt=1, nflush=1, sizes=[96], exit=False, grace=1, maxtime=9)),
-                         ("flush-drop", dict(nstmt=1, nflush=1, sizes=[230], exit=False, dropping=True))]},
+                         ("flush-drop", dict(nstmt=1, nflush=1, sizes=[230], exit=False, dropping=True, maxtime=7))]},
     "C08": {"quick": [("drop", dict(nstmt=2, sizes=[120, 300], dropping=True, exit=False))],
             "thorough": [("drop-exit", dict(nstmt=2, sizes=[120, 300], dropping=True, exit=True)),
-                         ("drop-flush", dict(nstmt=2, nflush=1, sizes=[200, 300], dropping=True, exit=True, threads=["t1"]))]},
+                         ("drop-flush", dict(nstmt=2, nflush=1, sizes=[200, 300], dropping=True, exit=True, threads=["t1"])),
+                         ("drop-flush2", dict(nstmt=1, nflush=1, sizes=[230], dropping=True, exit=True, maxtime=7))]},
     "C09": {"quick": [("one-thread", dict(threads=["t1"], nstmt=3, sizes=[40, 100, 256], exit=False))],
             "thorough": [("one-thread", dict(threads=["t1"], nstmt=4, sizes=[40, 100, 256], exit=False)),
                          ("two-threads", dict(nstmt=2, sizes=[40, 256], exit=False))]},
